@@ -364,7 +364,9 @@ fn wellformed_case(rng: &mut Rng, rep: &mut Report, idx: u64) {
         if long_lines && rng.chance(1, 3) {
             // lines of several thousand characters: long comments whose
             // tail looks like data, deep indentation, wide padding
-            let n = rng.pick(&[300usize, 1020, 1024, 1025, 2048, 5000, 4095, 4096, 4097, 8191, 8192, 8193, 65535, 65536, 70000]);
+            // (a budget keeps the whole file below a few MB: the very long
+            // lengths only while the text is still short)
+            let n = if text.len() < 2_000_000 { rng.pick(&[300usize, 1020, 1024, 1025, 2048, 5000, 4095, 4096, 4097, 8191, 8192, 8193, 65535, 65536, 70000]) } else if text.len() < 8_000_000 { rng.pick(&[300usize, 1020, 1024, 1025, 2048]) } else { 40 };
             match rng.below(3) {
                 0 => {
                     text.push('#');
